@@ -184,7 +184,7 @@ func (e *canonEnv) canon(v ssa.Value) *X {
 		e.fresh++
 		return L(fmt.Sprintf("?phi%d", e.fresh))
 	case *ssa.Parameter:
-		return L("?param:" + x.Name())
+		return L("?param:" + pname(x))
 	case *ssa.Global:
 		return L("global:" + x.Name())
 	case *ssa.Function:
